@@ -372,6 +372,12 @@ func c10(ctx *Ctx) (*Outcome, error) {
 	for i := 0; i < 6; i++ {
 		cases = append(cases, symlinkDirCase(i))
 	}
+	for i := 0; i < 9; i++ {
+		cases = append(cases, nestedSameDefCase(i))
+	}
+	for i := 0; i < 6; i++ {
+		cases = append(cases, aliasDefinitionCase(i))
+	}
 	for i := 0; i < 8; i++ {
 		cases = append(cases, bothDefsKeywordsCase(i))
 	}
